@@ -266,6 +266,8 @@ func drawBuiltSource(r *sim.Run) *objSource {
 	return src
 }
 
+var flagPoolObj = []uint32{mp4.SyncSampleFlags, mp4.NonSyncSampleFlags, 0, 0x02010000, 0x01010000}
+
 // drawConstructedSource: single boxes made through the public constructors with seeded arguments around the
 // boundaries of their length and count fields (descriptor payloads around 127/128 bytes, strings, KID lists, ...).
 func drawConstructedSource(r *sim.Run) *objSource {
@@ -280,7 +282,19 @@ func drawConstructedSource(r *sim.Run) *objSource {
 	var b mp4.Box
 	var err error
 	name := ""
-	switch t.Draw(15) {
+	switch t.Draw(16) {
+	case 15:
+		// a track run built through its own methods: default creation flags, 0-4 samples, optionally first-sample flags
+		// on top of per-sample flags, seeded data offset
+		tr := mp4.CreateTrun(uint32(t.Draw(3)))
+		for i := t.Draw(5); i > 0; i-- {
+			tr.AddSample(mp4.NewSample(flagPoolObj[t.Draw(len(flagPoolObj))], uint32(t.Draw(5000)), uint32(t.Draw(5000)), int32(t.Draw(3000))-1000))
+		}
+		if t.Bool() {
+			tr.SetFirstSampleFlags(flagPoolObj[t.Draw(len(flagPoolObj))])
+		}
+		tr.DataOffset = int32(8 + t.Draw(4000))
+		b, name = tr, fmt.Sprintf("CreateTrun(%d samples, flags %#x)", len(tr.Samples), tr.Flags)
 	case 14:
 		// a media data box filled through its own methods in a seeded order (data parts are only added while there is
 		// no monolithic data: the opposite order is refused by the library)
